@@ -288,6 +288,18 @@ func runC04(c *ctx) error {
 		pub, _ := d.Place(full, o)
 		hBase := &world.History{Level: 1, Pub: pub[:base]}
 		hFull := &world.History{Level: 1, Pub: pub}
+		if i%3 == 2 && len(pub) > base {
+			// the later operations are not anchored yet (unpublished store) and carry transaction times BEFORE everything
+			// that is anchored: unpublished operations come after all published ones whatever their time says
+			m := 1 + env.rng.Intn(len(pub)-base)
+			var un []world.Placed
+			for k, p := range pub[len(pub)-m:] {
+				p.CRef, p.Time, p.Num = 0, uint64(50+k), uint64(k)
+				un = append(un, p)
+			}
+			hFull = &world.History{Level: 1, Pub: pub[:len(pub)-m], Unpub: un}
+			r.Count("extension_unpublished_with_early_times", fmt.Sprint(m))
+		}
 		if i%3 == 1 {
 			r.Count("via_additional_operations_option", fmt.Sprint(hFull.ViaOption(env.rng) > 0))
 		}
@@ -587,6 +599,15 @@ func runC12(c *ctx) error {
 	for i := 0; i < n; i++ {
 		d := world.NewDID(env.kp, env.tb, env.rng, world.SHA256)
 		evs, note := world.CycleHistory(d, env.rng)
+		if i%2 == 1 && len(evs) > 2 {
+			// one operation of the chain is anchored twice (a replay right behind the original): the commitment it
+			// consumes is consumed all the same
+			k := 1 + env.rng.Intn(len(evs)-1)
+			dup := evs[k]
+			dup.Legit, dup.Label = false, "replay:"+dup.Label
+			evs = append(evs[:k+1], append([]world.Event{dup}, evs[k+1:]...)...)
+			note += "+replay"
+		}
 		o := world.GenOpts{TimeDelta: env.dl, Unpublished: (i % 3) * 2}
 		pub, unpubC := d.Place(evs, o)
 		h := &world.History{Level: 1, Pub: world.Shuffle(env.rng, pub), Unpub: unpubC, Note: note}
